@@ -53,8 +53,8 @@ ASSUMPTIONS = [
     "the HTML oracle compares token streams",
 ]
 SHARDS = {"quick": 4, "thorough": 16}
-FLOORS = {"xml_compared": 500, "html_compared": 500, "hostile_strings": 2000, "attr_markup_reparsed": 50,
-          "deferred_fired_late": 50, "renderers_called": 50, "comments": 200, "cdata_sections": 100}
+FLOORS = {"xml_compared": 20000, "html_compared": 20000, "hostile_strings": 200000, "attr_markup_reparsed": 5000,
+          "deferred_fired_late": 5000, "renderers_called": 500, "comments": 10000, "cdata_sections": 1000}
 READY = True
 
 TAGS = ["div", "p", "span", "a", "b", "i", "ul", "li", "table", "td", "h1", "em", "x-custom", "svg:g",
@@ -768,7 +768,7 @@ def run(ctx):
     except AssertionError as e:
         ctx.inconclusive("html5tok selftest failed: %s" % e)
         return
-    for i in ctx.cases(20000, 2000000):
+    for i in ctx.cases(60000, 2000000):
         run_case(ctx, i)
         if i % 5000 < ctx.nshards:
             gc.collect()
